@@ -26,13 +26,13 @@ impl<'a> WireFormat<'a> for CERT<'a> {
     where
         Self: Sized,
     {
-        let type_code = u16::from_be_bytes(data[*position..*position + 2].try_into()?);
+        let type_code = u16::from_be_bytes(data.get(*position..*position + 2).ok_or(crate::SimpleDnsError::InsufficientData)?.try_into()?);
         *position += 2;
-        let key_tag = u16::from_be_bytes(data[*position..*position + 2].try_into()?);
+        let key_tag = u16::from_be_bytes(data.get(*position..*position + 2).ok_or(crate::SimpleDnsError::InsufficientData)?.try_into()?);
         *position += 2;
-        let algorithm = data[*position];
+        let algorithm = *data.get(*position).ok_or(crate::SimpleDnsError::InsufficientData)?;
         *position += 1;
-        let certificate = &data[*position..];
+        let certificate = data.get(*position..).ok_or(crate::SimpleDnsError::InsufficientData)?;
         *position += certificate.len();
 
         Ok(Self {
